@@ -471,11 +471,16 @@ def replay_c09(prop, witness):
 
 
 PROPS['C09'] = dict(
-    run=run_c09, replay=replay_c09, mc=[],
+    run=run_c09, replay=replay_c09,
+    mc=[dict(module='CacheConc', cfg=('CacheConc_locked2.cfg', 'CacheConc_locked3.cfg'), workers=8),
+        dict(module='CacheConc', cfg='CacheConc_nosize.cfg', expect_violation=True, workers=2),
+        dict(module='CacheConc', cfg='CacheConc_nolen.cfg', expect_violation=True, workers=2),
+        dict(module='CacheConc', cfg='CacheConc_noget.cfg', expect_violation=True, workers=2)],
     assumptions=['TLC decides each RECORDED history exhaustively (all linearizations); which schedules occur is up to the Go scheduler: seeds x GOMAXPROCS {1,2,4,8} x injected yields/spins',
                  'the "no data race" clause is observed by the Go race detector during the recorded runs (TLC does not see memory accesses)',
                  'workloads hold at most 4 entries, so known finding F2 (needs >= 7 live entries) cannot occur and the sequential oracle is the plain LRU',
-                 'invocation/response order from one shared atomic counter read immediately before/after each call'])
+                 'invocation/response order from one shared atomic counter read immediately before/after each call',
+                 'CacheConc.tla (design level): with every method under the mutex and Put split at the grain of cache.go, every call is linearizable; variants with Size, Len or Get outside the mutex are refuted by TLC'])
 
 
 # --------------------------------------------------------------------------
@@ -532,7 +537,7 @@ PROPS['C14'] = dict(
 # C15 / C16 package shell
 PROPS['C15'] = dict(
     mc=[dict(module='QuoteMC', cfg=('QuoteMC_q.cfg', 'QuoteMC_t.cfg'), emit=True, workers=8)],
-    trace=dict(module='QuoteTrace', cfg='QuoteTrace.cfg', stack='256m'),
+    trace=dict(module='QuoteTrace', cfg='QuoteTrace.cfg', stack='1g', heap='6g'),
     assumptions=['TLC; ShellLex.tla Eval: POSIX word evaluation (XCU 2.2) with the must-quote / may-quote byte lists taken from the standard, not from the package constants',
                  'exhaustive over every single byte, all strings up to the length bound over 14 byte classes, all short lists; seeded random beyond',
                  'a shell obtains exactly s only for s without NUL (the model itself handles NUL as an ordinary byte)'])
